@@ -13,6 +13,7 @@ use vstd::std_specs::cmp::*;
 use vstd::std_specs::ops::*;
 use vstd::std_specs::convert::*;
 
+// verif: counter-overflow-undecided
 verus! {
 
 //@ include _std_extra.inc
